@@ -58,6 +58,16 @@ FlagOnWire(e) == e \in {"alonzo", "babbage", "conway"}
 ----------------------------------------------------------------------------
 (* Certificates.  A pool registration names pool "A" or "B" (not registered  *)
 (* in the ledger state) or "old" (already registered).                       *)
+(*                                                                           *)
+(* The ledger state's pool table (field pools of a case) gives every pool a  *)
+(* history: "unknown" (never registered, or retired and removed),            *)
+(* "registered", or "retiring" = registered with a retirement announced for  *)
+(* a later epoch.  A retiring pool stays in the registered set, and keeps    *)
+(* its deposit, until that epoch boundary (Shelley spec, POOLREAP); a        *)
+(* registration certificate for it is a re-registration that only cancels    *)
+(* the retirement.  totalDeposits therefore asks one question about the pool *)
+(* named by a registration certificate: is it in the registered set - its    *)
+(* retirement status is not looked at (PoolHistory).                         *)
 LegacyKinds == << "stake_reg", "stake_dereg", "stake_deleg",
                   "poolreg_newA", "poolreg_newB", "poolreg_old", "pool_retire",
                   "genesis_deleg" >>
@@ -74,6 +84,10 @@ KeyRegKinds   == {"stake_reg", "reg_dep", "stake_reg_deleg", "vote_reg_deleg", "
 \* every certificate that deregisters one refunds it
 KeyDeregKinds == {"stake_dereg", "dereg_dep"}
 NewPoolKinds  == {"poolreg_newA", "poolreg_newB"}
+PoolRegKinds  == NewPoolKinds \cup {"poolreg_old"}
+PoolOf(k)     == CASE k = "poolreg_newA" -> "A" [] k = "poolreg_newB" -> "B" [] k = "poolreg_old" -> "old"
+PoolStates    == {"unknown", "registered", "retiring"}
+InRegisteredSet(st) == st \in {"registered", "retiring"}
 \* kinds that move no deposit at all
 NeutralKinds  == {"stake_deleg", "poolreg_old", "pool_retire", "genesis_deleg", "vote_deleg", "drep_update"}
 
@@ -83,11 +97,11 @@ Count(certs, K) == Cardinality({i \in DOMAIN certs : certs[i] \in K})
 \* distinct pool id that is registered by the transaction and not yet registered
 \* in the ledger state ("we don't pay a deposit on a pool that is already
 \* registered or duplicated in the certs"); DRep deposits.
-NewPools(certs) == Range(certs) \cap NewPoolKinds
-Deposits(pp, certs) ==
-      pp.key  * Count(certs, KeyRegKinds)
-    + pp.pool * Cardinality(NewPools(certs))
-    + pp.drep * Count(certs, {"drep_reg"})
+NewPools(t) == {q \in {PoolOf(k) : k \in Range(t.certs) \cap PoolRegKinds} : ~InRegisteredSet(t.pools[q])}
+Deposits(t) ==
+      t.pp.key  * Count(t.certs, KeyRegKinds)
+    + t.pp.pool * Cardinality(NewPools(t))
+    + t.pp.drep * Count(t.certs, {"drep_reg"})
 
 \* refunds: key deposits of deregistered credentials, DRep deposits of
 \* deregistered DReps.  A pool retirement refunds nothing in the transaction.
@@ -104,7 +118,7 @@ ConsumedCoin(t)  == SumF(t.ins, "c", 1) + SumS(t.wds, 1) + Refunds(t.pp, t.certs
 \* two assets "a" and "b" (under one policy id): each is a component of its own
 MintOf(t, x)        == IF x = "a" THEN t.mint ELSE t.mintb
 ConsumedAsset(t, x) == IF HasAssets(t.era) THEN SumF(t.ins, x, 1) + MintOf(t, x) ELSE 0
-ProducedCoin(t)  == SumF(t.outs, "c", 1) + t.fee + Deposits(t.pp, t.certs)
+ProducedCoin(t)  == SumF(t.outs, "c", 1) + t.fee + Deposits(t)
                     + (IF HasGov(t.era) THEN t.nprop * t.pp.gov + t.don ELSE 0)
 ProducedAsset(t, x) == IF HasAssets(t.era) THEN SumF(t.outs, x, 1) ELSE 0
 
@@ -164,6 +178,10 @@ Base(e, bag, j, l) ==
          var   |-> "free",
          p2    |-> FALSE,          \* is_valid = false?  (Accept never reads it)
          certs |-> [i \in 1..Len(bag) |-> Kinds(e)[bag[i]]],
+         \* the pool table of the ledger state: the already registered pool has, in half
+         \* of the base transactions, announced its retirement
+         pools |-> [A |-> "unknown", B |-> "unknown",
+                    old |-> IF Rnd(l, 73, 2) = 0 THEN "registered" ELSE "retiring"],
          pp    |-> [ key  |-> 1 + Rnd(l, 8, 3),
                      pool |-> 1 + Rnd(l, 9, 3),
                      drep |-> IF HasGov(e) THEN 1 + Rnd(l, 60, 3) ELSE 0,
@@ -311,6 +329,22 @@ CertAlgebra ==
           /\ With(<<"poolreg_newA", "poolreg_newB">>)
                 = once - (IF "poolreg_newB" \in Range(c.certs) THEN 0 ELSE c.pp.pool)
 
+\* the history of the pool named by a registration certificate: only membership in the
+\* registered set decides about the deposit, the announced retirement does not ...
+PoolHistory ==
+    LET other == [c EXCEPT !.pools.old = IF @ = "registered" THEN "retiring" ELSE "registered"]
+        pc    == ProducedCoin(c)
+    IN /\ Accept(other) <=> Accept(c)
+       /\ ProducedCoin(other) = pc
+       \* (the variants of a base transaction share certificates, parameters and pool
+       \* table, so the "free" one speaks for all of them)
+       /\ c.var = "free" =>
+             \* ... and membership does: were the pool unknown, its registration would cost one deposit
+             /\ ProducedCoin([c EXCEPT !.pools.old = "unknown"])
+                   = pc + (IF "poolreg_old" \in Range(c.certs) THEN c.pp.pool ELSE 0)
+             \* retiring and re-registering the pool in one transaction moves nothing either
+             /\ Imbalance([c EXCEPT !.certs = @ \o <<"pool_retire", "poolreg_old">>]) = Imbalance(c)
+
 \* nothing but a burn is negative; a transaction that burns more than it spends is never accepted
 Signs ==
     /\ ConsumedCoin(c) >= 0 /\ ProducedCoin(c) >= 0
@@ -318,10 +352,10 @@ Signs ==
 
 \* the phase-2 flag never changes the verdict, nor either side of the equation
 FlagIrrelevant ==
-    LET d == [c EXCEPT !.p2 = ~c.p2] IN
-    /\ Accept(c) <=> Accept(d)
-    /\ ConsumedCoin(c) = ConsumedCoin(d) /\ ProducedCoin(c) = ProducedCoin(d)
-    /\ \A x \in {"a", "b"} : ConsumedAsset(c, x) = ConsumedAsset(d, x) /\ ProducedAsset(c, x) = ProducedAsset(d, x)
+    HasFlag(c.era) =>
+        LET d == [c EXCEPT !.p2 = ~c.p2] IN
+        /\ Accept(c) <=> Accept(d)
+        /\ ConsumedCoin(c) = ConsumedCoin(d) /\ ProducedCoin(c) = ProducedCoin(d)
 
 \* the flag is a coordinate of its own: every flagged case is the copy of an unflagged
 \* case of the same run at the same coordinates (so each flagged verdict is paired with
@@ -339,6 +373,8 @@ EraShape ==
     /\ Len(c.certs) <= MaxCerts
     /\ Len(c.ins) \in 1..3 /\ Len(c.outs) \in 0..4 /\ Len(c.wds) \in 0..3
     /\ c.fee \in 0..4 /\ c.pp.key \in 1..3 /\ c.pp.pool \in 1..3
+    /\ DOMAIN c.pools = {"A", "B", "old"} /\ \A q \in DOMAIN c.pools : c.pools[q] \in PoolStates
+    /\ c.pools.A = "unknown" /\ c.pools.B = "unknown" /\ InRegisteredSet(c.pools.old)
     /\ (~HasAssets(c.era) =>
             /\ c.mint = 0 /\ c.mintb = 0
             /\ \A i \in DOMAIN c.ins : c.ins[i].a = 0 /\ c.ins[i].b = 0
@@ -362,6 +398,7 @@ ASSUME \A e \in Range(AllEras) : (FlagOnWire(e) => HasFlag(e)) /\ (HasFlag(e) =>
 ASSUME \A x \in 0..50 : Rnd(<<Lane1(x, 1, 2), Lane2(x, 1, 2)>>, x, 4) \in 0..3
 
 Row(t) == [ era |-> t.era, bag |-> t.bag, j |-> t.j, var |-> t.var, certs |-> t.certs, pp |-> t.pp,
+            pools |-> t.pools,                            \* the ledger state's pool table
             ins |-> t.ins, outs |-> t.outs, fee |-> t.fee, wds |-> t.wds, mint |-> t.mint, mintb |-> t.mintb,
             don |-> t.don, nprop |-> t.nprop,
             p2 |-> t.p2,                                  \* build the transaction with is_valid = false
